@@ -99,6 +99,12 @@ def _two_writer_conds(tier, prefix):
             cs.append(_cond("c11_two_grid", f"{prefix}_two_grid_str_j{j}_e{1 - e}", XH_STORE="binary", XH_PK="str", XH_J=j, XH_EAGER=1 - e, XH_NGRID=ngrid))
     for pk in ("str", "path"):
         cs.append(_cond("c11_staging_name", f"{prefix}_staging_name_{pk}", XH_STORE="binary", XH_PK=pk))
+    if prefix == "c12":
+        # the same through MountedStore (every store stages in a local scratch file): B's whole write lands between two file
+        # operations of A's write (A's local staging, its rename, the copy to the remote)
+        for j in range(6 if tier == "quick" else 9):
+            cs.append(_cond("c11_two_grid", f"{prefix}_two_mounted_grid_j{j}", XH_STORE="binary", XH_PK="path" if j % 2 else "str", XH_J=j, XH_EAGER=j % 2,
+                            XH_NGRID=4, XH_MOUNT=1))
     return cs
 
 
